@@ -4,7 +4,8 @@ What this file offers (nothing here imports a property driver; it only imports a
 
 * ``ALGOS``                      the 11 algorithm names.
 * ``make_spaces(family, multi)`` tiny observation/action spaces for the space families vector | image | dict | discrete.
-* ``net_config_for(kind, family)`` partial and complete ``net_config`` dictionaries (``kind`` in partial|full|none).
+* ``net_config_for(kind, family)`` partial and complete ``net_config`` dictionaries (``kind`` in partial|full|none|resnet;
+                                 resnet = image observations with encoder_cls="ResNet", algorithms ``RESNET_ALGOS``).
 * ``build_agent(spec)``          builds one tiny agent of any algorithm.  ``spec`` is a JSON dict
                                  {"algo","family","share","netcfg","hp","index"}; deterministic given spec["seed"].
 * ``make_batch(agent, spec, seed)`` / ``learn(agent, spec, seed)``  one ``learn()`` call on a fresh, seeded batch
